@@ -272,6 +272,32 @@ fn c07<V: Val>(ctx: &mut Ctx, idx: u64, case: &Case, p: &Pma<V>, blocks: usize, 
                     }
                 }
             }
+            // a haystack type whose (safe) AsRef implementation is not pure: the string changes
+            // between calls — shorter later on (stale resume offsets), or alternating between two
+            // strings of different UTF-8 widths (the decoder sees a lead byte of one and the
+            // continuation bytes of the other). Results are unspecified; memory safety is not.
+            {
+                let second_cut = {
+                    let mut c = rng.usize_below(hay.len() + 1);
+                    while c > 0 && c < hay.len() && (hay[c] & 0xC0) == 0x80 {
+                        c -= 1;
+                    }
+                    c
+                };
+                let other: &[u8] = if case.utf8 { "\u{10ffff}é".as_bytes() } else { &[0xF4, 0x00] };
+                for &m in Method::for_kind(spec.kind) {
+                    if evlog::slice_twin(m) != m {
+                        continue;
+                    }
+                    let lim = 4 * hay.len() + 8;
+                    let b = loose_budget(4 * hay.len() + 16, ns);
+                    a.search_hostile(m, hay, &hay[..second_cut], 1, false, lim, b);
+                    a.search_hostile(m, hay, &hay[..second_cut], 1 + rng.usize_below(hay.len() + 1), false, lim, b);
+                    a.search_hostile(m, hay, other, 0, true, lim, b);
+                    a.search_hostile(m, other, hay, 0, true, lim, b);
+                    ctx.rep.count("impure_asref_searches", 4);
+                }
+            }
             // the byte-iterator entry points (hand-written UTF-8 decoder with unwrap_unchecked) under
             // the same sanitizer observers
             if spec.kind == MatchKind::Standard {
